@@ -522,13 +522,14 @@ def search(ctx, broken):
     # 3. no panic on any input: reader and from_bytes on garbled / truncated / random bytes
     rin = [(l, d) for l, d in REGRESSION] + reader_inputs(ctx, small[:ctx.n(300, 3000)], ctx.n(1500, 40000))
     xcases = ['x ' + hx(d) for _, d in rin] + ['split bin %d %s' % (len(d), hx(d)) for _, d in rin[:ctx.n(500, 5000)] if cheap_geometry(d)]
-    if ctx.thorough or ctx.escalated or True:
-        xcases += ['huge 1 0', 'huge 1 100', 'huge 3 150', 'huge 0 0']
+    xcases += ['huge 1 0', 'huge 1 100', 'huge 3 150', 'huge 0 0']
     ximpl = ctx.impl(xcases, per_case_timeout=30, mem_mb=4096)
     for (lbl, d), r in zip(rin, ximpl):
         msg = check_regression(lbl, r)
         if msg: failures.append({'signature': 'regression-' + lbl, 'input': 'x ' + hx(d), 'impl': str(r)[:300], 'detail': msg})
     for c, r in zip(xcases, ximpl):
+        if c.startswith('huge') and r[0] in ('oom', 'killed', 'timeout'):
+            continue          # the 2 GiB regression file could not be allocated on this machine: not a verdict about the code
         if r[0] not in ('ok', 'err') or (r[0] == 'err' and r[1].startswith('other')):
             failures.append({'signature': 'extract-' + r[0] if c[0] in 'xh' else 'from_bytes-' + r[0], 'input': c[:6000], 'impl': str(r),
                              'detail': 'the SAUCE reader must return None / Some / Err on every byte string'})
